@@ -386,3 +386,162 @@ Proof.
   - exact Hwf.
 Qed.
 End ReadLink.
+
+(* ------------------------------------------------------------------ the exact form of the read *)
+Definition tr_exact (count : N) (r : Guest.res N) : Guest.res unit :=
+  match r with
+  | inr e => inr e
+  | inl n => if n =? count then inl tt else inr (Guest.EPartialBuffer count n)
+  end.
+Lemma tr_res_exact count (r : gres N) :
+  tr_res (match r with
+          | GErr e => GErr e
+          | GOk res => if res =? count then GOk tt else GErr (GPartialBuffer count res)
+          end) = tr_exact count (tr_res r).
+Proof. destruct r as [n|e]; cbn; [destruct (n =? count); reflexivity|reflexivity]. Qed.
+
+Lemma erase_bind_eq {A B} (o1 o2 : outcome A) (k : A -> outcome B) :
+  erase o1 = erase o2 -> erase (bind o1 k) = erase (bind o2 k).
+Proof. destruct o1, o2; cbn; intros H; try discriminate; try reflexivity. inversion H; subst. reflexivity. Qed.
+
+Section ReadExactLink.
+Context {S : Type} (chunk : N) (srcof : S -> list N) (call : callT S).
+Hypothesis Hcall : chunk_reader chunk srcof call.
+Variable L : list region.
+
+(* read_exact_volatile_from (guest_memory.rs:687-704): the same wrapper on both sides *)
+Lemma read_exact_volatile_from_same md addr s m count : wfmem L m ->
+  erase (omap (fun x => (abs_rd srcof L (fst x), tr_res (snd x)))
+              (gm_read_exact_volatile_from md (Datatypes.S (Datatypes.S (length L + length (srcof s)))) call L addr s m count)) =
+  erase (Guest.gm_read_exact_volatile_from Guest.find_lin md (M_of L m) addr chunk (srcof s) count).
+Proof.
+  intros Hwf. unfold gm_read_exact_volatile_from, gm_exact_of, Guest.gm_read_exact_volatile_from.
+  pose proof (read_volatile_from_same chunk srcof call Hcall L md addr s m count Hwf) as H.
+  rewrite omap_omap.
+  set (X := gm_read_volatile_from md (Datatypes.S (Datatypes.S (length L + length (srcof s)))) call L addr s m count) in *.
+  set (Y := Guest.gm_read_volatile_from Guest.find_lin md (M_of L m) addr chunk (srcof s) count) in *.
+  destruct X as [[sm r]| |]; destruct Y as [[ms r']| |]; cbn in H |- *; try discriminate; try reflexivity.
+  inversion H; subst. cbn [fst snd]. rewrite tr_res_exact. reflexivity.
+Qed.
+End ReadExactLink.
+
+(* ------------------------------------------------------------------ write_volatile_to / write_all_volatile_to
+   an in-memory sink that accepts every buffer completely (what Guest.v's
+   reg_write_all_volatile_to assumes: dst is a Vec<u8>) *)
+Definition all_writer {S} (sinkof : S -> list N) (call : callT S) : Prop :=
+  forall s m v, exists s', call s m v = Val ((s', m), Ok (vs_len v)) /\
+                           sinkof s' = sinkof s ++ mem_read m (vs_off v) (vs_len v).
+
+(* the real `impl WriteVolatile for Vec<u8>` (io.rs:309-335, Impl/Io.v) is one in builds without
+   overflow checks; with them it additionally panics when the Vec would reach 2^64 bytes *)
+Lemma vec_is_all_writer : all_writer s_data (vec_write_volatile Release).
+Proof.
+  intros s m v. unfold vec_write_volatile, copy_from_volatile_slice, passert, padd.
+  rewrite N.eqb_refl. cbn [bind].
+  destruct (nlen (s_data s) + vs_len v <? W64); cbn [bind]; eexists; split; reflexivity.
+Qed.
+
+Lemma window_read m off glen st len : off + glen <= nlen m -> st + len <= glen ->
+  mem_read m (off + st) len = firstn (N.to_nat len) (skipn (N.to_nat st) (mem_read m off glen)).
+Proof.
+  intros H1 H2. apply Proofs.C03.nth_error_ext. intros k.
+  rewrite nth_error_firstn_c, nth_error_skipn_c, !mem_read_nth.
+  destruct (Nat.ltb_spec k (N.to_nat len)); destruct (N.ltb_spec (N.of_nat k) len); try lia; [|reflexivity].
+  destruct (N.ltb_spec (N.of_nat (N.to_nat st + k)) glen); [|lia]. f_equal. lia.
+Qed.
+
+Section WriteLink.
+Context {S : Type} (sinkof : S -> list N) (call : callT S).
+Hypothesis Hcall : all_writer sinkof call.
+Variable L : list region.
+Variable m : list N.
+Hypothesis Hwf : wfmem L m.
+
+Definition io_wr_cb (fuel : nat) : cbT S := fun _ len caddr region s0 m0 =>
+  omap (fun x => (fst x, match snd x with GOk _ => GOk len | GErr e => GErr e end))
+       (region_exact EWriteZero fuel call region caddr s0 m0 len).
+
+Lemma write_cb_commutes fuel (sm : S * list N) total len start i :
+  snd sm = m -> (i < length (lay L))%nat -> start < snd (nth i (lay L) Guest.dreg) ->
+  omap (absx (fun sm : S * list N => sinkof (fst sm)))
+       (cb_of L (io_wr_cb (Datatypes.S (Datatypes.S fuel))) sm total len start i) =
+  (fun (d : list N) (_ len caddr : N) (i : nat) =>
+     let wr := Guest.reg_write_all_volatile_to (nth i (M_of L m) Guest.dummy) caddr d len in
+     Val (fst wr, match snd wr with inl _ => inl len | inr e => inr e end)) (sinkof (fst sm)) total len start i /\
+  (forall sm' r, cb_of L (io_wr_cb (Datatypes.S (Datatypes.S fuel))) sm total len start i = Val (sm', r) -> snd sm' = m).
+Proof.
+  destruct sm as [s m0]. cbn [fst snd]. intros -> Hi Hs.
+  unfold lay in Hi. rewrite map_length in Hi. rewrite nth_lay in Hs. cbn [snd] in Hs.
+  set (r := nth i L dregion) in *.
+  assert (Hin : In r L) by (apply nth_In; exact Hi).
+  destruct (wfmem_in L m r Hwf Hin) as (Hpos & Hend & Hw & Hb).
+  assert (HL : Guest.lenN (mem_read m (g_moff r) (g_len r)) = g_len r) by exact (nlen_mem_read m (g_moff r) (g_len r) Hw).
+  unfold cb_of, io_wr_cb. cbn [fst snd]. fold r.
+  rewrite (nth_M_of L m i Hi). fold r.
+  unfold Guest.reg_write_all_volatile_to, Guest.reg_get_slice, Guest.rlen. cbn [Guest.rbytes]. rewrite HL.
+  unfold region_exact, vs_exact, region_slice, vs_subslice. cbn [vs_addr vs_len vs_off].
+  destruct (checked_add start len) as [e|] eqn:E; [|cbn; split; [reflexivity|intros ? ? Hv; inversion Hv; reflexivity]].
+  apply checked_add_Some in E. destruct E as [-> He].
+  destruct (N.ltb_spec (g_len r) (start + len)) as [Hbig|Hfit];
+    [cbn; split; [reflexivity|intros ? ? Hv; inversion Hv; reflexivity]|].
+  unfold exact_volatile, vs_offset. cbn [vs_addr vs_len vs_off].
+  assert (E1 : checked_add (HBASE + g_moff r + start) 0 = Some (HBASE + g_moff r + start + 0)) by (apply checked_add_Some; split; [reflexivity|lia]).
+  assert (E2 : checked_sub len 0 = Some (len - 0)) by (apply checked_sub_Some; split; [reflexivity|lia]).
+  rewrite E1, E2. cbn [exact_loop vs_len].
+  destruct (N.eqb_spec (len - 0) 0) as [Hz|Hnz].
+  - assert (len = 0) by lia. subst len. cbn. rewrite app_nil_r. split; [reflexivity|intros ? ? Hv; inversion Hv; reflexivity].
+  - cbn [retry_eintr].
+    set (v := {| vs_addr := HBASE + g_moff r + start + 0; vs_off := g_moff r + start + 0; vs_len := len - 0 |}).
+    destruct (Hcall s m v) as (s' & Ec & Es). rewrite Ec. unfold v in *. cbn [vs_len vs_off vs_addr] in *.
+    cbn [bind]. destruct (N.eqb_spec (len - 0) 0) as [|_]; [contradiction|].
+    unfold vs_offset. cbn [vs_addr vs_len vs_off].
+    assert (E3 : checked_add (HBASE + g_moff r + start + 0) (len - 0) = Some (HBASE + g_moff r + start + 0 + (len - 0)))
+      by (apply checked_add_Some; split; [reflexivity|lia]).
+    assert (E4 : checked_sub (len - 0) (len - 0) = Some (len - 0 - (len - 0))) by (apply checked_sub_Some; split; [reflexivity|lia]).
+    rewrite E3, E4. cbn [exact_loop vs_len].
+    replace (len - 0 - (len - 0) =? 0) with true by (symmetry; apply N.eqb_eq; lia).
+    cbn. split; [|intros ? ? Hv; inversion Hv; reflexivity].
+    unfold absx, trx. cbn [fst snd tr_res]. rewrite Es, N.add_0_r, N.sub_0_r.
+    rewrite (window_read m (g_moff r) (g_len r) start len Hw Hfit). reflexivity.
+Qed.
+
+(* THE LINK, part 3: write_volatile_to *)
+Lemma write_volatile_to_same md addr s count :
+  erase (omap (fun x => (sinkof (fst (fst x)), tr_res (snd x)))
+              (gm_write_volatile_to md (Datatypes.S (length L)) call L addr s m count)) =
+  erase (Guest.gm_write_volatile_to Guest.find_lin md (M_of L m) addr (sinkof s) count).
+Proof.
+  unfold gm_write_volatile_to, Guest.gm_write_volatile_to.
+  rewrite (shape_M_of L m Hwf).
+  replace (Datatypes.S (length (M_of L m))) with (Datatypes.S (length L)) by (unfold M_of; rewrite map_length; reflexivity).
+  fold (io_wr_cb (Datatypes.S (length L))).
+  transitivity (erase (omap (absx (fun sm : S * list N => sinkof (fst sm)))
+                            (omap trx (try_access md (Datatypes.S (length L)) L count addr (io_wr_cb (Datatypes.S (length L))) addr 0 s m)))).
+  { rewrite omap_omap. reflexivity. }
+  rewrite erase_omap, (try_access_same md L count addr (io_wr_cb (Datatypes.S (length L))) (Datatypes.S (length L)) addr 0 s m), <- erase_omap.
+  f_equal.
+  change (sinkof s) with ((fun sm : S * list N => sinkof (fst sm)) (s, m)).
+  apply (try_access_abs (fun sm : S * list N => snd sm = m) (fun sm : S * list N => sinkof (fst sm)) Guest.find_lin md (lay L) count).
+  - apply find_lin_range.
+  - intros s1 total len start i HI Hi Hs.
+    assert (Hl : exists f, length L = Datatypes.S f).
+    { unfold lay in Hi. rewrite map_length in Hi. destruct (length L); [lia|eauto]. }
+    destruct Hl as (f & ->). apply write_cb_commutes; assumption.
+  - reflexivity.
+Qed.
+
+(* write_all_volatile_to (guest_memory.rs:717-730) *)
+Lemma write_all_volatile_to_same md addr s count :
+  erase (omap (fun x => (sinkof (fst (fst x)), tr_res (snd x)))
+              (gm_write_all_volatile_to md (Datatypes.S (length L)) call L addr s m count)) =
+  erase (Guest.gm_write_all_volatile_to Guest.find_lin md (M_of L m) addr (sinkof s) count).
+Proof.
+  unfold gm_write_all_volatile_to, gm_exact_of, Guest.gm_write_all_volatile_to.
+  pose proof (write_volatile_to_same md addr s count) as H.
+  rewrite omap_omap.
+  set (X := gm_write_volatile_to md (Datatypes.S (length L)) call L addr s m count) in *.
+  set (Y := Guest.gm_write_volatile_to Guest.find_lin md (M_of L m) addr (sinkof s) count) in *.
+  destruct X as [[sm r]| |]; destruct Y as [[ms r']| |]; cbn in H |- *; try discriminate; try reflexivity.
+  inversion H; subst. cbn [fst snd]. rewrite tr_res_exact. reflexivity.
+Qed.
+End WriteLink.
